@@ -36,6 +36,8 @@ def plan(tier):
 
 
 def make_example(kind, i):
+    if kind == 'array':
+        return np.arange(4, dtype=np.int64) + 10 * i
     if kind == 'dict':
         return {'id': i, 'tags': [i, i + 1], 'meta': {'k': [i], 'd': {'x': i}}, 'arr': np.arange(3) + i}
     return ([i, i + 1], {'lab': [i]}, 'x%d' % i, np.arange(2) + i)
@@ -58,6 +60,10 @@ def mutate(obj, kind):
     """Mutate an example (or an (key, example) pair) in place. Returns True if something was changed."""
     if isinstance(obj, tuple) and len(obj) == 2 and isinstance(obj[0], str):
         obj = obj[1]  # items() pair
+    if isinstance(obj, np.ndarray):
+        obj[0] = -99
+        obj *= 2
+        return True
     if isinstance(obj, dict):
         if kind == 'set':
             obj['id'] = -7
@@ -311,7 +317,7 @@ def st_case(draw):
         else:
             steps.append(['read', draw(st.sampled_from(READS)), draw(st.integers(0, 7)),
                           draw(st.sampled_from(MUTS + [None]))])
-    return {'storage': storage, 'container': container, 'payload': draw(st.sampled_from(['dict', 'dict', 'tuple'])),
+    return {'storage': storage, 'container': container, 'payload': draw(st.sampled_from(['dict', 'dict', 'tuple', 'array'])),
             'n': n, 'steps': steps}
 
 
